@@ -3,6 +3,7 @@ import Proofs.Holding
 import Proofs.ExecOnce
 import Proofs.HoldOnce
 import Proofs.Process
+import Pegnet.Generated.Facts
 /-
   C06 — At-most-once execution of an entry (replay protection).
 -/
@@ -204,6 +205,18 @@ theorem held_at_most_once (P : Params) (chain : List Block) :
 
 end Pegnet.C06
 
+namespace Pegnet.C06
+open Pegnet
+/-- the shipped schedule, regenerated from config/activations.go and fat/fat2/activations.go on every
+    run, against the values this property was read with: the height from which conversions are held for the next rated block. Every scenario of the harness
+    runs on a compressed schedule that overwrites these constants, so nothing else would notice one of
+    them moving; a moved height is a different protocol, not a rewrite. -/
+theorem shipped_schedule :
+    let a := Generated.activations
+    Generated.activationsComplete = true ∧ a.txConv = 213237 := by
+  decide
+end Pegnet.C06
+
 #print axioms Pegnet.C06.execution_marks_entry
 #print axioms Pegnet.C06.mark_is_permanent
 #print axioms Pegnet.C06.repeated_arrival_is_noop
@@ -217,3 +230,4 @@ end Pegnet.C06
 #print axioms Pegnet.C06.executed_is_marked
 #print axioms Pegnet.C06.executed_at_most_once_process
 #print axioms Pegnet.C06.held_at_most_once
+#print axioms Pegnet.C06.shipped_schedule
